@@ -22,26 +22,25 @@ pub struct Atom { pub id: u64 }
 //@ item pt struct MatchEntry strip_attrs
 
 // ------------------------------ the documented formula ------------------------------
-/// precedence of rung `idx` (0 = first) of a match block with `n` rungs: earlier rungs are higher, all are above 0
-pub open spec fn rung_prec(n: int, idx: int) -> int { n - idx }
 /// "a quoted literal before a regex in the same rung"
 pub open spec fn base(l: TerminalLiteral) -> int { if l is Quoted { 1 } else { 0 } }
-/// parse_tree.rs: "the formula is `G*2 + IP`"
+/// parse_tree.rs: "the formula is `G*2 + IP`" (G the group of the rung, IP 1 for literals and 0 for regexes)
 pub open spec fn entry_prec(group: int, l: TerminalLiteral) -> int { group * 2 + base(l) }
 
-/// C09's ordering, as a consequence of the three formulas the extracted code is proved to compute
-pub proof fn lemma_documented_precedence(n: int, i: int, j: int, a: TerminalLiteral, b: TerminalLiteral)
-    requires 0 <= i < n, 0 <= j < n,
+/// C09's ordering, as a consequence of what the extracted code is proved to compute: `gi`, `gj` are the groups of
+/// two rungs as `rung_precedence_pair` relates them (earlier rung: higher group; all groups above 0)
+pub proof fn lemma_documented_precedence(gi: int, gj: int, a: TerminalLiteral, b: TerminalLiteral)
+    requires gi >= gj > 0,
     ensures
         // an entry of an earlier rung beats any entry of a later rung
-        i < j ==> entry_prec(rung_prec(n, i), a) > entry_prec(rung_prec(n, j), b),
+        gi > gj ==> entry_prec(gi, a) > entry_prec(gj, b),
         // in one rung a quoted literal beats a regex, two literals / two regexes tie
-        i == j && a is Quoted && b is Regex ==> entry_prec(rung_prec(n, i), a) > entry_prec(rung_prec(n, j), b),
-        i == j && (a is Quoted <==> b is Quoted) ==> entry_prec(rung_prec(n, i), a) == entry_prec(rung_prec(n, j), b),
+        gi == gj && a is Quoted && b is Regex ==> entry_prec(gi, a) > entry_prec(gj, b),
+        gi == gj && (a is Quoted <==> b is Quoted) ==> entry_prec(gi, a) == entry_prec(gj, b),
         // without a match block (`catch_all = Precedence(0)`) literals still beat regexes ..
         a is Quoted && b is Regex ==> entry_prec(0, a) > entry_prec(0, b),
-        // .. and group 0 is never the group of a rung
-        rung_prec(n, i) > 0,
+        // .. and every entry of a rung beats every entry of group 0
+        entry_prec(gj, a) > entry_prec(0, b),
 {}
 
 /// stands for `match_token` (only `.contents.len()` is read)
@@ -50,15 +49,32 @@ pub struct MatchTokenStandIn { pub contents: Vec<u8> }
 pub struct MatchBlockStandIn { pub match_entries: Vec<MatchEntry>, pub catch_all: Option<Precedence> }
 
 // MatchBlock::new: precedence of the rung being read.  Context: `idx` comes from `contents.iter().enumerate()`.
+// The contract is relational (the numbering itself is not documented, its order is): every rung is above group 0,
+// the group of terminals when there is no match block ..
 /*<fn:MatchBlock::new#precedence>*/
 fn rung_precedence(match_token: &MatchTokenStandIn, idx: usize) -> (res: usize)
     requires idx < match_token.contents@.len(),
-    ensures res == rung_prec(match_token.contents@.len() as int, idx as int), // @C09
+    ensures res > 0, // @C09
 {
 //@ stmt tc MatchBlock::new let precedence #1 MatchBlock::new#precedence
     precedence
 }
 /*</fn:MatchBlock::new#precedence>*/
+// .. and an earlier rung gets a strictly higher group than a later one (the same statement, rendered twice)
+/*<fn:MatchBlock::new#precedence_pair>*/
+fn rung_precedence_pair(match_token: &MatchTokenStandIn, i: usize, j: usize) -> (res: (usize, usize))
+    requires i < j < match_token.contents@.len(),
+    ensures res.0 > res.1, // @C09
+{
+    let a = { let idx = i;
+//@ stmt tc MatchBlock::new let precedence #1 MatchBlock::new#precedence_pair
+        precedence };
+    let b = { let idx = j;
+//@ stmt tc MatchBlock::new let precedence #1 MatchBlock::new#precedence_pair
+        precedence };
+    (a, b)
+}
+/*</fn:MatchBlock::new#precedence_pair>*/
 
 // MatchBlock::new: `_` in a rung - terminals added later from the grammar get that rung's precedence.  The other
 // integers in scope at the statement (`idx`, the rung count) are parameters too, so that a version of the statement
